@@ -739,3 +739,31 @@ def shutdown_resets(fn):
         if not any(fn.postdominates(b2.id, b.id) or (b2.id == b.id and i2 > i) or (copied and fn.pos_dominates((b2.id, i2), (b.id, i))) for (b2, i2) in resets):
             bad.append((g, line(c)))
     return len(rels), bad
+
+
+def clean_covers_create(unit, create_name, clean_name):
+    """Sibling agreement of a handle's create and clean-up helpers: every field of the object the create helper stores is stored
+    by the clean-up helper too.  The recovery paths run clean-up and
+    then create again on the same object, and create decides by what it finds in those fields (an ownership flag left TRUE makes
+    the re-created handle reset the counter and remove the object at free).  -> (fields compared, [fields not reset])"""
+    cr = unit.fn(create_name, raw=True)
+    cl = unit.fn(clean_name)              # with its own static helpers folded in: a `reset_fields (h)` helper counts
+
+    def stores(f):
+        names = f.copies_of(f.param_names()[0])
+        out = {}
+        for (b, i, n) in f.nodes(elsewhere=True):
+            if n["k"] == "asg" and strip_casts(n["l"]) is not None and strip_casts(n["l"])["k"] == "member" and root_var(n["l"]) in names:
+                out.setdefault(strip_casts(n["l"])["field"], []).append((b, i, n))
+        return out
+    want = stores(cr)
+    have = stores(cl)
+    if any(c.get("callee") in ("memset", "__builtin_memset", "__builtin___memset_chk") and root_var(c["args"][0]) in cl.copies_of(cl.param_names()[0]) for (b, i, c) in cl.calls()):
+        return len(want), []              # the whole object is wiped
+    missing = []
+    for fld in sorted(want):
+        # a reset under a test of the field itself (`if (h->sem != NULL) { free (h->sem); h->sem = NULL; }`) is a reset: presence is asked
+        if not have.get(fld):
+            missing.append(fld)
+    return len(want), missing
+
